@@ -144,3 +144,31 @@ def nested_fn_program(rng):
     lines.append("};")
     lines.append("[buiten(%s), g, h, tel]" % ", ".join(str(rng.below(9)) for _ in outer_params))
     return "\n".join(lines)
+
+
+def big_code_programs():
+    """top-level code longer than 64 KiB: operands of jumps and function entries are limited to 16 bits, positions of
+    straight-line code are not - a call made from beyond byte 65535 must return to where it was made, a function defined
+    beyond it must be entered there, and a loop whose jump target does not fit must be rejected (SyntaxError), all as in
+    the model.  A filler statement `1;` compiles to 4 bytes (Const + Pop)."""
+    out = []
+    head = "functie tik(n) { n + 1 };\nstel t = 0;\n"
+    for fill in (16000, 16370, 16380, 16384, 16390, 17000, 33000):
+        body = "1;\n" * fill
+        out.append(("big-code-call-after", head + body + "t = tik(t);\nt = tik(t) + tik(t);\n[t, tik(40)]"))
+    out.append(("big-code-call-around", head + ("1;\n" * 16300) + "".join("t = tik(t);\n" for _ in range(60)) + "t"))
+    out.append(("big-code-late-function", "stel t = 5;\n" + ("1;\n" * 17000) + "functie laat(n) { n * 2 };\n[laat(t), laat(laat(t))]"))
+    out.append(("big-code-late-loop", "stel i = 0;\n" + ("1;\n" * 17000) + "zolang i < 3 { i += 1 };\ni"))
+    out.append(("big-code-late-if", "stel i = 0;\n" + ("1;\n" * 17000) + "als i == 0 { i = 7 } anders { i = 9 };\ni"))
+    out.append(("big-code-function-body", "functie groot(n) {\n" + ("1;\n" * 17000) + "n + 1 };\ngroot(1) + groot(2)"))
+    return out
+
+
+def iife_programs():
+    """a function literal - named or anonymous, with parameters - called where it is written"""
+    return [
+        "functie dubbel(x) { x * 2 }(21)", "functie(x) { x * 2 }(21)", "(functie dubbel(x) { x * 2 })(21)", "functie dubbel(x) { x * 2 }(21) + 1",
+        "stel r = functie som(a, b) { a + b }(1, 2); r", "[functie een() { 1 }(), functie twee() { 2 }()]", "functie f() { functie g(y) { y + 1 }(4) }()",
+        "functie dubbel(x) { x * 2 }(21); dubbel(1)", "functie dubbel(x) { x * 2 }\n(21)", "functie dubbel(x) { x * 2 };\n(21)",
+        "print(functie groet(n) { n }(\"hoi\"))", "functie fac(n) { als n < 2 { antwoord 1 }; n * fac(n - 1) }(5)",
+    ]
